@@ -50,6 +50,82 @@ enum S {
     Iter(Vec<S>, bool), // sized?
     Map(Vec<(S, S)>),
     Plain(String),
+    /// one-shot iterator (`make_one_shot_iterator`): consumed by the first walk, so it is rebuilt for every operation
+    Once(Vec<S>),
+    /// user-defined map object (`ObjectRepr::Map`): keeps insertion order, looks keys up with `==`
+    OMap(Vec<(S, S)>),
+    /// user-defined sequence object (`ObjectRepr::Seq`, `Enumerator::Seq`)
+    OSeq(Vec<S>),
+    /// user-defined plain object with `custom_cmp` (orders by the number, renders zero-padded)
+    Ver(u32),
+    /// an invalid value (`Value::from(Error)`)
+    Inv(String),
+    /// the silent undefined (`(1 if false)` evaluated through the expression API)
+    USilent,
+}
+
+#[derive(Debug)]
+struct OMapObj(Vec<(Value, Value)>);
+impl Object for OMapObj {
+    fn repr(self: &Arc<Self>) -> ObjectRepr {
+        ObjectRepr::Map
+    }
+    fn get_value(self: &Arc<Self>, key: &Value) -> Option<Value> {
+        self.0.iter().find(|(k, _)| k == key).map(|(_, v)| v.clone())
+    }
+    fn enumerate(self: &Arc<Self>) -> Enumerator {
+        Enumerator::Values(self.0.iter().map(|(k, _)| k.clone()).collect())
+    }
+}
+
+#[derive(Debug)]
+struct OSeqObj(Vec<Value>);
+impl Object for OSeqObj {
+    fn repr(self: &Arc<Self>) -> ObjectRepr {
+        ObjectRepr::Seq
+    }
+    fn get_value(self: &Arc<Self>, key: &Value) -> Option<Value> {
+        self.0.get(key.as_usize()?).cloned()
+    }
+    fn enumerate(self: &Arc<Self>) -> Enumerator {
+        Enumerator::Seq(self.0.len())
+    }
+}
+
+#[derive(Debug)]
+struct VerObj(u32);
+impl Object for VerObj {
+    fn repr(self: &Arc<Self>) -> ObjectRepr {
+        ObjectRepr::Plain
+    }
+    fn enumerate(self: &Arc<Self>) -> Enumerator {
+        Enumerator::NonEnumerable
+    }
+    fn custom_cmp(self: &Arc<Self>, other: &minijinja::value::DynObject) -> Option<Ordering> {
+        let other = other.downcast_ref::<Self>()?;
+        Some(self.0.cmp(&other.0))
+    }
+    fn render(self: &Arc<Self>, f: &mut fmt::Formatter<'_>) -> fmt::Result {
+        write!(f, "ver{:06}", self.0)
+    }
+}
+
+fn has_invalid(s: &S) -> bool {
+    match s {
+        S::Inv(_) => true,
+        S::Seq(xs) | S::Tuple(xs) | S::Iter(xs, _) | S::OSeq(xs) | S::Once(xs) => xs.iter().any(has_invalid),
+        S::Map(ps) | S::OMap(ps) => ps.iter().any(|(k, v)| has_invalid(k) || has_invalid(v)),
+        _ => false,
+    }
+}
+
+fn volatile(s: &S) -> bool {
+    match s {
+        S::Once(_) => true,
+        S::Seq(xs) | S::Tuple(xs) | S::Iter(xs, _) | S::OSeq(xs) => xs.iter().any(volatile),
+        S::Map(ps) | S::OMap(ps) => ps.iter().any(|(k, v)| volatile(k) || volatile(v)),
+        _ => false,
+    }
 }
 
 #[derive(Debug)]
@@ -94,6 +170,15 @@ fn build(s: &S) -> Value {
         // (BTreeMap, or IndexMap under `preserve_order`) by inserting the pairs in this order
         S::Map(ps) => Value::from_pairs(ps.iter().map(|(k, v)| (build(k), build(v)))),
         S::Plain(t) => Value::from_object(PlainObj(t.clone())),
+        S::Once(xs) => Value::make_one_shot_iterator(xs.iter().map(build).collect::<Vec<Value>>().into_iter()),
+        S::OMap(ps) => Value::from_object(OMapObj(ps.iter().map(|(k, v)| (build(k), build(v))).collect())),
+        S::OSeq(xs) => Value::from_object(OSeqObj(xs.iter().map(build).collect())),
+        S::Ver(n) => Value::from_object(VerObj(*n)),
+        S::Inv(msg) => Value::from(minijinja::Error::new(minijinja::ErrorKind::InvalidOperation, msg.clone())),
+        S::USilent => {
+            let env = Environment::new();
+            env.compile_expression("(1 if false)").unwrap().eval(()).unwrap()
+        }
     }
 }
 
@@ -124,6 +209,15 @@ fn enc(s: &S) -> String {
             ps.iter().map(|(k, v)| format!("{}:{}", enc(k), enc(v))).collect::<Vec<_>>().join(",")
         ),
         S::Plain(t) => format!("P.{}", hex(t.as_bytes())),
+        S::Once(xs) => format!("<!{}>", list(xs)),
+        S::OMap(ps) => format!(
+            "{{={}}}",
+            ps.iter().map(|(k, v)| format!("{}:{}", enc(k), enc(v))).collect::<Vec<_>>().join(",")
+        ),
+        S::OSeq(xs) => format!("[={}]", list(xs)),
+        S::Ver(n) => format!("C.{n}"),
+        S::Inv(m) => format!("X.{}", hex(m.as_bytes())),
+        S::USilent => "us".into(),
     }
 }
 
@@ -156,7 +250,12 @@ fn dec(src: &str) -> S {
         match b[*i] {
             b'[' => {
                 *i += 1;
-                S::Seq(items(b, i, b']'))
+                if b[*i] == b'=' {
+                    *i += 1;
+                    S::OSeq(items(b, i, b']'))
+                } else {
+                    S::Seq(items(b, i, b']'))
+                }
             }
             b'(' => {
                 *i += 1;
@@ -164,6 +263,10 @@ fn dec(src: &str) -> S {
             }
             b'<' => {
                 *i += 1;
+                if b[*i] == b'!' {
+                    *i += 1;
+                    return S::Once(items(b, i, b'>'));
+                }
                 let sized = if b[*i] == b'?' {
                     *i += 1;
                     false
@@ -174,10 +277,15 @@ fn dec(src: &str) -> S {
             }
             b'{' => {
                 *i += 1;
+                let omap = b[*i] == b'=';
+                if omap {
+                    *i += 1;
+                }
+                let mk = move |ps: Vec<(S, S)>| if omap { S::OMap(ps) } else { S::Map(ps) };
                 let mut ps = vec![];
                 if b[*i] == b'}' {
                     *i += 1;
-                    return S::Map(ps);
+                    return mk(ps);
                 }
                 loop {
                     let k = go(b, i);
@@ -188,7 +296,7 @@ fn dec(src: &str) -> S {
                     let c = b[*i];
                     *i += 1;
                     if c == b'}' {
-                        return S::Map(ps);
+                        return mk(ps);
                     }
                     assert_eq!(c, b',');
                 }
@@ -199,6 +307,9 @@ fn dec(src: &str) -> S {
                 let txt = |h: &str| String::from_utf8(unhex(h)).unwrap();
                 match tag {
                     "u" => S::Undef,
+                    "us" => S::USilent,
+                    "C" => S::Ver(rest.parse().unwrap()),
+                    "X" => S::Inv(txt(rest)),
                     "n" => S::None,
                     "t" => S::Bool(true),
                     "f" => S::Bool(false),
@@ -367,6 +478,36 @@ fn zoo(thorough: bool) -> Vec<S> {
     z.push(m(vec![(s0("k"), S::Seq(vec![S::Iter(vec![i(1)], true)]))]));
     z.push(m(vec![(s0("k"), S::Seq(vec![S::Seq(vec![i(1)])]))]));
     z.push(S::Seq(vec![S::Plain("x".into())]));
+    // more kinds: silent undefined, one-shot iterators, user objects of every repr, custom_cmp, invalid values
+    z.push(S::USilent);
+    z.push(S::Once(vec![]));
+    z.push(S::Once(vec![i(1), i(2)]));
+    z.push(S::Once(vec![fbits(1.0), S::U64(2)]));
+    z.push(S::Seq(vec![S::Once(vec![i(1)])]));
+    z.push(S::OSeq(vec![]));
+    z.push(S::OSeq(vec![i(1), i(2)]));
+    z.push(S::OSeq(vec![S::OSeq(vec![s0("a")])]));
+    z.push(S::OMap(vec![]));
+    z.push(S::OMap(vec![(s0("a"), i(1)), (s0("b"), i(2))]));
+    z.push(S::OMap(vec![(s0("b"), i(2)), (s0("a"), i(1))]));
+    z.push(S::OMap(vec![(i(2), s0("x")), (i(1), s0("y"))]));
+    z.push(m(vec![(S::OMap(vec![(s0("a"), i(1))]), i(5))]));
+    z.push(m(vec![(m(vec![(s0("a"), i(1))]), i(5))]));
+    z.push(m(vec![(S::OSeq(vec![i(1)]), i(2))]));
+    z.push(S::Ver(9));
+    z.push(S::Ver(10));
+    z.push(S::Ver(10));
+    z.push(S::Plain("ver000010".into()));
+    z.push(S::Seq(vec![S::Ver(9)]));
+    z.push(S::Inv("boom".into()));
+    z.push(S::Inv("bang".into()));
+    z.push(S::Seq(vec![S::Inv("boom".into())]));
+    z.push(S::Bytes(b"A".to_vec()));
+    z.push(S::U128(u128::MAX));
+    z.push(S::I128(i128::MIN));
+    z.push(m(vec![(fbits(-0.0), i(1))]));
+    z.push(m(vec![(fbits(0.0), i(1))]));
+    z.push(m(vec![(S::F(0x7ff8_0000_0000_0000), i(1))]));
     z
 }
 
@@ -408,10 +549,52 @@ fn run_val(a: &Value) -> String {
 }
 
 fn run_pair(a: &Value, b: &Value) -> String {
-    let c = guarded(|| ord_char(a.cmp(b)).to_string()).unwrap_or_else(|_| "P".into());
-    let e = guarded(|| ((a == b) as u8).to_string()).unwrap_or_else(|_| "P".into());
-    let h = guarded(|| ((hash_of(a) == hash_of(b)) as u8).to_string()).unwrap_or_else(|_| "P".into());
-    format!("{c} {e} {h}")
+    run_pair_s(None, a, b)
+}
+
+/// one-shot iterators are consumed by the first walk: with the specs given, values holding one are
+/// rebuilt for every operation (each operation then sees what a template would see on first use)
+fn run_pair_s(specs: Option<(&S, &S)>, a: &Value, b: &Value) -> String {
+    let fresh = |_which: u8| -> (Value, Value) {
+        match specs {
+            Some((sa, sb)) if volatile(sa) || volatile(sb) => (build(sa), build(sb)),
+            _ => (a.clone(), b.clone()),
+        }
+    };
+    let (a0, b0) = fresh(0);
+    let c = guarded(|| ord_char(a0.cmp(&b0)).to_string()).unwrap_or_else(|_| "P".into());
+    let (a1, b1) = fresh(1);
+    let e = guarded(|| ((a1 == b1) as u8).to_string()).unwrap_or_else(|_| "P".into());
+    let (a2, b2) = fresh(2);
+    let h = guarded(|| ((hash_of(&a2) == hash_of(&b2)) as u8).to_string()).unwrap_or_else(|_| "P".into());
+    // the derived operators of PartialOrd / PartialEq must agree with cmp / eq
+    let (a3, b3) = fresh(3);
+    let po = guarded(|| {
+        let pc = a3.partial_cmp(&b3);
+        (pc.map(ord_char), a3 < b3, a3 != b3)
+    });
+    let extra = match (po, c.as_str(), e.as_str()) {
+        (Err(_), "P", _) => "",
+        (Err(_), _, _) => " partial-ord-panics",
+        (Ok((pc, lt, ne)), cs, es) => {
+            if volatile_pair(specs) {
+                ""
+            } else if pc.map(|x| x.to_string()).as_deref() != Some(cs) && cs != "P" {
+                " partial-cmp-differs"
+            } else if (lt as u8 == 1) != (cs == "L") && cs != "P" {
+                " lt-differs"
+            } else if es != "P" && (ne as u8).to_string() == es {
+                " ne-differs"
+            } else {
+                ""
+            }
+        }
+    };
+    format!("{c} {e} {h}{extra}")
+}
+
+fn volatile_pair(specs: Option<(&S, &S)>) -> bool {
+    specs.map_or(false, |(a, b)| volatile(a) || volatile(b))
 }
 
 const TPLS: [&str; 9] = [
@@ -457,6 +640,17 @@ fn alphabet() -> Vec<S> {
     vec![i(1), fbits(1.0), S::U64(2), s0("a"), s0("A"), s0("b"), S::None]
 }
 
+/// second alphabet: strings next to bytes that are / are not UTF-8 (case folding must not treat bytes as text)
+fn alphabet_b() -> Vec<S> {
+    vec![s0("c"), S::Bytes(b"b".to_vec()), S::Bytes(vec![0x61, 0xff]), s0("B"), i(1), S::Bytes(b"C".to_vec()), s0("b")]
+}
+
+fn word_list_in(word: &str, alt: bool) -> Vec<S> {
+    let al = if alt { alphabet_b() } else { alphabet() };
+    word.bytes().map(|c| al[(c - b'0') as usize].clone()).collect()
+}
+
+#[allow(dead_code)]
 fn word_list(word: &str) -> Vec<S> {
     let al = alphabet();
     word.bytes().map(|c| al[(c - b'0') as usize].clone()).collect()
@@ -468,7 +662,7 @@ fn ident(v: &Value) -> String {
 }
 
 fn lower_key(v: &Value, cs: bool) -> Value {
-    if !cs {
+    if !cs && v.kind() == minijinja::value::ValueKind::String {
         if let Some(s) = v.as_str() {
             return Value::from(s.to_ascii_lowercase());
         }
@@ -901,7 +1095,10 @@ fn check_dictsort(fc: &mut FilterCheck, xs_spec: &[S]) {
 }
 
 fn run_flist(env: &Environment<'static>, form: &str, word: &str) -> String {
-    let xs = word_list(word);
+    // forms ending in `B` draw from the second alphabet
+    let alt = form.ends_with('B');
+    let form = form.trim_end_matches('B');
+    let xs = word_list_in(word, alt);
     let tmpl = env.template_from_str("").unwrap();
     let mut state = tmpl.new_state();
     let mut fc = FilterCheck { state: &mut state, fails: vec![], n: 0 };
@@ -1142,6 +1339,359 @@ fn run_lk(env: &Environment<'static>, backing: &str, n: usize, ks: &S, ps: &S) -
     Some(format!("{} {}", expected as u8, out))
 }
 
+// ------------------------------------------------------------------------------------------ random nested values
+
+fn rand_scalar(rng: &mut Rng) -> S {
+    let ints: [i128; 14] = [0, 1, -1, 2, 255, 1 << 31, (1 << 53) + 1, (1 << 63) - 1, 1 << 63, (1 << 64) - 1, 1 << 64,
+        -(1 << 63), i128::MAX, i128::MIN];
+    match rng.below(12) {
+        0 => S::None,
+        1 => S::Undef,
+        2 => S::Bool(rng.chance(1, 2)),
+        3 | 4 => {
+            let v = if rng.chance(1, 3) { (rng.next() as i64 >> rng.below(60)) as i128 } else { *rng.pick(&ints) };
+            let mut reprs = vec![];
+            int_reprs(v, None, &mut reprs);
+            rng.pick(&reprs).clone()
+        }
+        5 => S::U128(u128::MAX - rng.below(3) as u128),
+        6 | 7 => {
+            let fl: [f64; 12] = [0.0, -0.0, 1.0, -1.0, 0.5, 2.0, 9007199254740992.0, 9223372036854775808.0,
+                18446744073709551616.0, f64::INFINITY, f64::NEG_INFINITY, 1.7014118346046923e38];
+            if rng.chance(1, 4) { S::F(rng.next()) } else if rng.chance(1, 8) { S::F(0x7ff8_0000_0000_0000) } else { fbits(*rng.pick(&fl)) }
+        }
+        8 | 9 => {
+            let t = *rng.pick(&["", "a", "A", "b", "ab", "é", "1", "abcdefghijklmnopqrstuvwxyz"]);
+            S::Str(t.into(), rng.below(3) as u8)
+        }
+        10 => S::Bytes(rng.pick(&[&b""[..], b"a", b"ab", b"\xff"]).to_vec()),
+        _ => S::Plain(rng.pick(&["x", "y"]).to_string()),
+    }
+}
+
+fn rand_key(rng: &mut Rng) -> S {
+    // map keys: no bools (a bool and the number it equals would be merged by `from_pairs`: known finding)
+    loop {
+        let k = rand_scalar(rng);
+        if !matches!(k, S::Bool(_) | S::Plain(_)) {
+            return k;
+        }
+    }
+}
+
+fn rand_value(rng: &mut Rng, depth: u32) -> S {
+    if depth == 0 || rng.chance(2, 5) {
+        return rand_scalar(rng);
+    }
+    let n = rng.below(4) as usize;
+    let kids = |rng: &mut Rng| (0..n).map(|_| rand_value(rng, depth - 1)).collect::<Vec<_>>();
+    match rng.below(8) {
+        0 | 1 => S::Seq(kids(rng)),
+        2 => S::Tuple(kids(rng)),
+        3 => S::Iter(kids(rng), rng.chance(1, 2)),
+        4 => S::OSeq(kids(rng)),
+        5 => S::Once(kids(rng)),
+        6 => {
+            // a user map object must not hold two keys that are `==` (its lookups go by `==`)
+            let mut ps: Vec<(S, S)> = vec![];
+            for _ in 0..n {
+                let k = rand_key(rng);
+                let kv = build(&k);
+                if kv == kv && !ps.iter().any(|(q, _)| build(q) == kv) {
+                    ps.push((k, rand_value(rng, depth - 1)));
+                }
+            }
+            S::OMap(ps)
+        }
+        _ => S::Map((0..n).map(|_| (rand_key(rng), rand_value(rng, depth - 1))).collect()),
+    }
+}
+
+/// a batch: random values plus mutated copies (same shape, one leaf or one container kind changed),
+/// so that `Equal` / `==` pairs and near misses are frequent
+fn rand_batch(rng: &mut Rng, n: usize) -> Vec<S> {
+    fn mutate(rng: &mut Rng, s: &S) -> S {
+        match s {
+            S::Seq(xs) if !xs.is_empty() && rng.chance(1, 2) => {
+                let mut ys = xs.clone();
+                let k = rng.below(ys.len() as u64) as usize;
+                ys[k] = mutate(rng, &ys[k]);
+                S::Seq(ys)
+            }
+            S::Seq(xs) => match rng.below(4) {
+                0 => S::Iter(xs.clone(), true),
+                1 => S::OSeq(xs.clone()),
+                2 => S::Tuple(xs.clone()),
+                _ => S::Once(xs.clone()),
+            },
+            S::Iter(xs, _) | S::OSeq(xs) | S::Once(xs) => S::Seq(xs.clone()),
+            S::Map(ps) => {
+                let mut qs = ps.clone();
+                qs.reverse();
+                let ks: Vec<Value> = qs.iter().map(|(k, _)| build(k)).collect();
+                let distinct = ks.iter().enumerate().all(|(a, k)| k == k && ks[..a].iter().all(|o| o != k));
+                if distinct && rng.chance(1, 2) { S::OMap(qs) } else { S::Map(qs) }
+            }
+            S::OMap(ps) => S::Map(ps.clone()),
+            S::I64(x) => match rng.below(4) {
+                0 => S::I128(*x as i128),
+                1 => fbits(*x as f64),
+                2 if *x >= 0 => S::U64(*x as u64),
+                _ => S::I64(x.wrapping_add(1)),
+            },
+            S::U64(x) => if rng.chance(1, 2) { S::U128(*x as u128) } else { fbits(*x as f64) },
+            S::Str(t, f) => S::Str(t.clone(), (f + 1) % 3),
+            S::F(b) => if rng.chance(1, 2) { S::F(b ^ 0x8000_0000_0000_0000) } else { S::F(*b) },
+            other => other.clone(),
+        }
+    }
+    let mut out: Vec<S> = vec![];
+    while out.len() < n {
+        let v = rand_value(rng, 4);
+        out.push(v.clone());
+        if out.len() < n && rng.chance(2, 3) {
+            out.push(mutate(rng, &v));
+        }
+        if out.len() < n && rng.chance(1, 4) {
+            out.push(v);
+        }
+    }
+    out
+}
+
+// ------------------------------------------------------------------------------------------ filters against the model
+
+/// alphabet of the model-compared filter stream (letters `0`-`9`, `a`-`c`); pairwise distinct `ident`s
+fn alphabet2() -> Vec<S> {
+    vec![
+        i(1), fbits(1.0), S::U64(2), s0("a"), s0("A"), s0("b"), S::None, S::F(0x7ff8_0000_0000_0000), fbits(-0.0), i(0),
+        S::Seq(vec![i(1)]), S::Bytes(b"a".to_vec()), S::U128(u128::MAX),
+    ]
+}
+const LETTERS: &str = "0123456789abc";
+
+fn letter_of(v: &Value, idents: &[String]) -> String {
+    let id = ident(v);
+    match idents.iter().position(|x| *x == id) {
+        Some(p) => LETTERS[p..p + 1].to_string(),
+        None => "?".into(),
+    }
+}
+
+fn fv_words(max_len: usize, distinct: bool) -> Vec<String> {
+    let mut out = vec![String::new()];
+    let mut cur = vec![String::new()];
+    for _ in 0..max_len {
+        let mut next = vec![];
+        for w in &cur {
+            for c in LETTERS.chars() {
+                if distinct && w.contains(c) {
+                    continue;
+                }
+                next.push(format!("{w}{c}"));
+            }
+        }
+        out.extend(next.iter().cloned());
+        cur = next;
+    }
+    out
+}
+
+/// position of the word in an `fv` case (an empty word is written `-`)
+fn fv_word_index(kind: &str) -> usize {
+    match kind {
+        "sort" | "dictsort" | "sel" => 4,
+        "unique" | "groupby" => 3,
+        "cin" => 2,
+        _ => 1,
+    }
+}
+
+fn fv_run_case(fv: &Fv, case: &str) -> String {
+    let mut f: Vec<&str> = case.split(' ').collect();
+    let wi = fv_word_index(f[0]);
+    if f.len() > wi && f[wi] == "-" {
+        f[wi] = "";
+    }
+    fv.run(&f)
+}
+
+struct Fv<'e> {
+    env: &'e Environment<'static>,
+    al: Vec<S>,
+    idents: Vec<String>,
+}
+
+impl<'e> Fv<'e> {
+    fn items(&self, word: &str, wrap: bool) -> Vec<Value> {
+        word.chars()
+            .enumerate()
+            .map(|(idx, c)| {
+                let v = build(&self.al[LETTERS.find(c).unwrap()]);
+                if wrap { Value::from_pairs([("k", v), ("id", Value::from(idx))]) } else { v }
+            })
+            .collect()
+    }
+    fn show(&self, vs: &[Value], wrap: bool) -> String {
+        if wrap {
+            vs.iter().map(|v| v.get_attr("id").map(|x| x.to_string()).unwrap_or("?".into())).collect::<Vec<_>>().join(".")
+        } else {
+            vs.iter().map(|v| letter_of(v, &self.idents)).collect::<Vec<_>>().join("")
+        }
+    }
+    fn apply(&self, name: &str, args: &[Value]) -> Result<Value, String> {
+        let env = self.env;
+        let r = guarded(|| {
+            let tmpl = env.template_from_str("").unwrap();
+            let mut state = tmpl.new_state();
+            state.apply_filter(name, args)
+        });
+        match r {
+            Err(_) => Err("panic".into()),
+            Ok(Err(e)) => Err(format!("err:{:?}", e.kind())),
+            Ok(Ok(v)) => Ok(v),
+        }
+    }
+    fn list_out(&self, r: Result<Value, String>, wrap: bool) -> String {
+        match r.and_then(|v| to_vec(&v)) {
+            Ok(vs) => format!("ok:{}", self.show(&vs, wrap)),
+            Err(e) => e,
+        }
+    }
+    fn run(&self, f: &[&str]) -> String {
+        let b = |x: &str| x == "1";
+        match f[0] {
+            // fv sort <cs> <rev> <plain|wrap> <word>
+            "sort" => {
+                let wrap = f[3] == "wrap";
+                let mut kws: Vec<(&'static str, Value)> = vec![("case_sensitive", Value::from(b(f[1]))), ("reverse", Value::from(b(f[2])))];
+                if wrap {
+                    kws.push(("attribute", Value::from("k")));
+                }
+                self.list_out(self.apply("sort", &[Value::from(self.items(f[4], wrap)), Value::from(kw(&kws))]), wrap)
+            }
+            "unique" => {
+                let wrap = f[2] == "wrap";
+                let mut kws: Vec<(&'static str, Value)> = vec![("case_sensitive", Value::from(b(f[1])))];
+                if wrap {
+                    kws.push(("attribute", Value::from("k")));
+                }
+                self.list_out(self.apply("unique", &[Value::from(self.items(f[3], wrap)), Value::from(kw(&kws))]), wrap)
+            }
+            // fv groupby <cs> <dflt letter|-> <word>: `grouper:ids` per group
+            "groupby" => {
+                let mut kws: Vec<(&'static str, Value)> = vec![("case_sensitive", Value::from(b(f[1])))];
+                if f[2] != "-" {
+                    kws.push(("default", build(&self.al[LETTERS.find(f[2]).unwrap()])));
+                }
+                // every third item lacks the attribute
+                let items: Vec<Value> = self
+                    .items(f[3], true)
+                    .into_iter()
+                    .enumerate()
+                    .map(|(p, v)| if p % 3 == 2 { Value::from_pairs([("id", Value::from(p))]) } else { v })
+                    .collect();
+                match self.apply("groupby", &[Value::from(items), Value::from("k"), Value::from(kw(&kws))]).and_then(|v| to_vec(&v)) {
+                    Ok(groups) => {
+                        let mut parts = vec![];
+                        for g in groups {
+                            let gv = to_vec(&g).unwrap_or_default();
+                            if gv.len() != 2 {
+                                return "shape".into();
+                            }
+                            let members = to_vec(&gv[1]).unwrap_or_default();
+                            let gl = if gv[0].is_undefined() { "u".to_string() } else { letter_of(&gv[0], &self.idents) };
+                            parts.push(format!("{}:{}", gl, self.show(&members, true)));
+                        }
+                        format!("ok:{}", parts.join(";"))
+                    }
+                    Err(e) => e,
+                }
+            }
+            // fv dictsort <cs> <rev> <byvalue> <word>: keys = the letters, values = (len - pos) % 3 → `key=value` pairs
+            "dictsort" => {
+                let n = f[4].len();
+                let pairs: Vec<(Value, Value)> = self.items(f[4], false).into_iter().enumerate().map(|(p, k)| (k, Value::from((n - p) % 3))).collect();
+                let mut kws: Vec<(&'static str, Value)> = vec![("case_sensitive", Value::from(b(f[1]))), ("reverse", Value::from(b(f[2])))];
+                if b(f[3]) {
+                    kws.push(("by", Value::from("value")));
+                }
+                match self.apply("dictsort", &[Value::from_pairs(pairs), Value::from(kw(&kws))]).and_then(|v| to_vec(&v)) {
+                    Ok(ps) => format!(
+                        "ok:{}",
+                        ps.iter()
+                            .map(|p| {
+                                let kv = to_vec(p).unwrap_or_default();
+                                format!("{}={}", kv.first().map(|k| letter_of(k, &self.idents)).unwrap_or("?".into()), kv.get(1).map(|v| v.to_string()).unwrap_or("?".into()))
+                            })
+                            .collect::<Vec<_>>()
+                            .join(",")
+                    ),
+                    Err(e) => e,
+                }
+            }
+            // fv sel <test> <invert> <plain|wrap> <word> <arg letter>
+            "sel" => {
+                let wrap = f[3] == "wrap";
+                let arg = build(&self.al[LETTERS.find(f[5]).unwrap()]);
+                let name = match (b(f[2]), wrap) {
+                    (false, false) => "select",
+                    (true, false) => "reject",
+                    (false, true) => "selectattr",
+                    (true, true) => "rejectattr",
+                };
+                let mut args = vec![Value::from(self.items(f[4], wrap))];
+                if wrap {
+                    args.push(Value::from("k"));
+                }
+                args.push(Value::from(f[1]));
+                args.push(arg);
+                self.list_out(self.apply(name, &args), wrap)
+            }
+            "min" | "max" => match self.apply(f[0], &[Value::from(self.items(f[1], false))]) {
+                Ok(v) if v.is_undefined() => "ok:u".into(),
+                Ok(v) => format!("ok:{}", letter_of(&v, &self.idents)),
+                Err(e) => e,
+            },
+            // fv cin <seq|tuple|iter|once|oseq|map|omap> <word> <arg letter>: `arg in container`
+            "cin" => {
+                let items = self.items(f[2], false);
+                let c = match f[1] {
+                    "seq" => Value::from(items),
+                    "tuple" => Value::from_object(Tuple::new(items)),
+                    "iter" => Value::make_object_iterable(items, |v| Box::new(v.iter().filter(|_| true).cloned())),
+                    "once" => Value::make_one_shot_iterator(items.into_iter()),
+                    "oseq" => Value::from_object(OSeqObj(items)),
+                    "map" => Value::from_pairs(items.into_iter().map(|k| (k, Value::from(1)))),
+                    _ => Value::from_object(OMapObj(items.into_iter().map(|k| (k, Value::from(1))).collect())),
+                };
+                let arg = build(&self.al[LETTERS.find(f[3]).unwrap()]);
+                render_flag(self.env, "{{ 1 if a in c else 0 }}", context! { a => arg, c => c }).to_string()
+            }
+            // fv lit <word>: the map literal `{k0: 0, k1: 1, …}` → `key=value` pairs in iteration order
+            "lit" => {
+                let items = self.items(f[1], false);
+                let ctx = Value::from_pairs(items.iter().enumerate().map(|(p, v)| (format!("k{p}"), v.clone())));
+                let env = self.env;
+                // evaluate the literal through the expression API to get the map itself
+                let lit = format!("{{{}}}", (0..items.len()).map(|p| format!("k{p}: {p}")).collect::<Vec<_>>().join(", "));
+                match guarded(|| env.compile_expression(&lit).and_then(|e| e.eval(ctx.clone()))) {
+                    Err(_) => "panic".into(),
+                    Ok(Err(e)) => format!("err:{:?}", e.kind()),
+                    Ok(Ok(m)) => match m.as_object().and_then(|o| o.try_iter_pairs()) {
+                        Some(it) => format!(
+                            "ok:{}",
+                            it.map(|(k, v)| format!("{}={}", letter_of(&k, &self.idents), v)).collect::<Vec<_>>().join(",")
+                        ),
+                        None => "notmap".into(),
+                    },
+                }
+            }
+            _ => "bad-case".into(),
+        }
+    }
+}
+
 // ------------------------------------------------------------------------------------------ main
 
 fn words(max_len: usize, base: usize) -> Vec<String> {
@@ -1180,11 +1730,12 @@ fn main() {
             for (k, s) in z.iter().enumerate() {
                 let e = enc(s);
                 assert_eq!(&dec(&e), s, "encoding does not round-trip: {e}");
-                writeln!(out, "val {k} {e}\t{}", run_val(&a[k])).unwrap();
+                let va = if volatile(s) { build(s) } else { a[k].clone() };
+                writeln!(out, "val {k} {e}\t{}", run_val(&va)).unwrap();
             }
             for x in 0..z.len() {
                 for y in 0..z.len() {
-                    writeln!(out, "pair {x} {y}\t{}", run_pair(&a[x], &b[y])).unwrap();
+                    writeln!(out, "pair {x} {y}\t{}", run_pair_s(Some((&z[x], &z[y])), &a[x], &b[y])).unwrap();
                 }
             }
             // template operators: all pairs in the thorough tier
@@ -1192,6 +1743,11 @@ fn main() {
                 for y in 0..z.len() {
                     // quick: a fixed stride, plus every pair that is `==` (where `in` / lookups must agree)
                     let is_eq = guarded(|| a[x] == b[y]).unwrap_or(false);
+                    if volatile(&z[x]) || volatile(&z[y]) || has_invalid(&z[x]) || has_invalid(&z[y]) {
+                        // a one-shot iterator would be consumed by the first of the templates; an invalid
+                        // value makes every template operation fail with the error it holds (by design)
+                        continue;
+                    }
                     if thorough || (x * 31 + y * 17) % 4 == 0 || x == y || is_eq {
                         writeln!(out, "tpl {x} {y}\t{}", run_tpl(&env, &a[x], &b[y])).unwrap();
                     }
@@ -1207,6 +1763,14 @@ fn main() {
                     for form in ["iter", "sized", "tuple", "deque", "dict"] {
                         writeln!(out, "flist {form} {wtxt}\t{}", run_flist(&env, form, &w)).unwrap();
                     }
+                }
+            }
+            for w in words(4, 7) {
+                let wtxt = if w.is_empty() { "-".to_string() } else { w.clone() };
+                writeln!(out, "flist plainB {wtxt}\t{}", run_flist(&env, "plainB", &w)).unwrap();
+                writeln!(out, "flist wrapB {wtxt}\t{}", run_flist(&env, "wrapB", &w)).unwrap();
+                if w.len() <= 3 {
+                    writeln!(out, "flist dictB {wtxt}\t{}", run_flist(&env, "dictB", &w)).unwrap();
                 }
             }
             // long random lists (ties everywhere): an unstable or insertion-only sort shows here
@@ -1230,6 +1794,85 @@ fn main() {
                         }
                     }
                 }
+            }
+            // random nested values (depth ≤ 4) in batches: every ordered pair of a batch
+            let (nb, bs) = if thorough { (250, 32) } else { (40, 28) };
+            for bi in 0..nb {
+                let batch = rand_batch(&mut rng, bs);
+                let va: Vec<Value> = batch.iter().map(build).collect();
+                let vb: Vec<Value> = batch.iter().map(build).collect();
+                for (k, sp) in batch.iter().enumerate() {
+                    let e = enc(sp);
+                    assert_eq!(&dec(&e), sp, "encoding does not round-trip: {e}");
+                    let v0 = if volatile(sp) { build(sp) } else { va[k].clone() };
+                    writeln!(out, "rval {bi} {k} {e}\t{}", run_val(&v0)).unwrap();
+                }
+                for x in 0..batch.len() {
+                    for y in 0..batch.len() {
+                        writeln!(out, "rpair {bi} {x} {y}\t{}", run_pair_s(Some((&batch[x], &batch[y])), &va[x], &vb[y])).unwrap();
+                    }
+                }
+            }
+            // the filters / `in` / tests / map literals against the Lean model
+            let fv = Fv { env: &env, al: alphabet2(), idents: alphabet2().iter().map(|sp| ident(&build(sp))).collect() };
+            for (k, sp) in fv.al.iter().enumerate() {
+                writeln!(out, "fa {} {}\tok", &LETTERS[k..k + 1], enc(sp)).unwrap();
+            }
+            let mut fv_cases: Vec<String> = vec![];
+            let wd = |w: &String| if w.is_empty() { "-".to_string() } else { w.clone() };
+            let plain_words = fv_words(if thorough { 4 } else { 3 }, true);
+            let wrap_words = fv_words(if thorough { 3 } else { 2 }, false);
+            let mut long_words: Vec<String> = vec![];
+            for _ in 0..(if thorough { 600 } else { 80 }) {
+                let len = 4 + rng.below(36) as usize;
+                long_words.push((0..len).map(|_| LETTERS.as_bytes()[rng.below(13) as usize] as char).collect());
+            }
+            for w in plain_words.iter() {
+                for cs in 0..2 {
+                    for rev in 0..2 {
+                        fv_cases.push(format!("sort {cs} {rev} plain {}", wd(w)));
+                    }
+                    fv_cases.push(format!("unique {cs} plain {}", wd(w)));
+                }
+                fv_cases.push(format!("min {}", wd(w)));
+                fv_cases.push(format!("max {}", wd(w)));
+            }
+            for w in wrap_words.iter().chain(long_words.iter()) {
+                for cs in 0..2 {
+                    for rev in 0..2 {
+                        fv_cases.push(format!("sort {cs} {rev} wrap {}", wd(w)));
+                    }
+                    fv_cases.push(format!("unique {cs} wrap {}", wd(w)));
+                    fv_cases.push(format!("groupby {cs} - {}", wd(w)));
+                    fv_cases.push(format!("groupby {cs} 5 {}", wd(w)));
+                }
+            }
+            for w in fv_words(if thorough { 3 } else { 2 }, true).iter() {
+                for cs in 0..2 {
+                    for rev in 0..2 {
+                        for bv in 0..2 {
+                            fv_cases.push(format!("dictsort {cs} {rev} {bv} {}", wd(w)));
+                        }
+                    }
+                }
+                for arg in LETTERS.chars() {
+                    for t in ["eq", "ne", "lt", "le", "gt", "ge"] {
+                        for inv in 0..2 {
+                            fv_cases.push(format!("sel {t} {inv} plain {} {arg}", wd(w)));
+                        }
+                    }
+                    fv_cases.push(format!("sel eq 0 wrap {} {arg}", wd(w)));
+                    fv_cases.push(format!("sel lt 1 wrap {} {arg}", wd(w)));
+                    for c in ["seq", "tuple", "iter", "once", "oseq", "map", "omap"] {
+                        fv_cases.push(format!("cin {c} {} {arg}", wd(w)));
+                    }
+                }
+            }
+            for w in fv_words(3, false).iter() {
+                fv_cases.push(format!("lit {}", wd(w)));
+            }
+            for c in fv_cases {
+                writeln!(out, "fv {c}\t{}", fv_run_case(&fv, &c)).unwrap();
             }
             // run lengths for the model
             let huge = ["9223372036854775807", "9223372036854775808", "18446744073709551615", "18446744073709551616", "768614336404564651"];
@@ -1256,12 +1899,19 @@ fn main() {
             let res = match f[0] {
                 // replay form: `pairv <enc a> <enc b>` (self-contained)
                 "pairv" => {
-                    let (a, b) = (build(&dec(f[1])), build(&dec(f[2])));
-                    format!("{} | tpl {}", run_pair(&a, &b), run_tpl(&env, &a, &b))
+                    let (sa, sb) = (dec(f[1]), dec(f[2]));
+                    let (a, b) = (build(&sa), build(&sb));
+                    let p = run_pair_s(Some((&sa, &sb)), &a, &b);
+                    let (a, b) = (build(&sa), build(&sb));
+                    format!("{} | tpl {}", p, run_tpl(&env, &a, &b))
                 }
                 "valv" => run_val(&build(&dec(f[1]))),
                 "flist" => run_flist(&env, f[1], if f[2] == "-" { "" } else { f[2] }),
                 "batch" | "slicef" => run_runs(&env, f[0], f[1].parse().unwrap(), f[2], f[3] == "1"),
+                "fv" => {
+                    let fv = Fv { env: &env, al: alphabet2(), idents: alphabet2().iter().map(|sp| ident(&build(sp))).collect() };
+                    fv_run_case(&fv, &f[1..].join(" "))
+                }
                 "lk" => format!(
                     "{} [entries: {}]",
                     run_lk(&env, f[1], f[2].parse().unwrap(), &dec(f[3]), &dec(f[4])).unwrap_or_else(|| "n/a".into()),
